@@ -2,6 +2,7 @@
 
 from hypothesis import strategies as st
 
+from vf import instrument as I
 from vf.core import Violation, hash32
 from vf.gen import metamorph as MM
 
@@ -9,8 +10,10 @@ PROPERTY = "C16"
 LEVEL = "exploration"
 TOLERANCE = "rel 1e-5 on both sides of the bound; usage <= 1 + 1e-6"
 RULE = (
-    "Hypothesis-generated (small spec, tolerance setting) pairs; specs as in C17 (1-2 Einsums, 2-3 memory levels, finite "
-    "throughputs, leak, GLB sized around the tensors so capacity binds), metrics ENERGY / LATENCY / EDP. Settings: "
+    "Hypothesis-generated (small spec, tolerance setting) pairs; specs: one Einsum (matmul/matvec, rank bounds from "
+    "{4,6,8,12}, 2-3 memory levels) or two (2-matmul chain / 2 elementwise ops, bounds <= 6, 2 levels), finite throughputs, "
+    "leak, every memory below Main finite and smaller than the tensors together; metrics ENERGY / LATENCY / EDP. The "
+    "tolerance run's tile-shape prune threshold (literal 1000) is drawn from {1000, 1000, 8, 1} (DESIGN 4.6). Settings: "
     "objective_tolerance t in {0.01, 0.1, 0.5} alone, resource_usage_tolerance r in {0.01, 0.1, 0.5} alone, and both "
     "together. The spec is mapped exactly (both 0) and with the setting. Oracle: (t alone) the tolerance run is feasible "
     "when the exact run is and opt0*(1-1e-5) <= best_t <= opt0*(1+t)*(1+1e-5); (any r > 0) every returned mapping is valid: "
@@ -32,10 +35,15 @@ OBJ = {"ENERGY": "energy", "LATENCY": "latency", "ENERGY_DELAY_PRODUCT": "edp"}
 @st.composite
 def cases(draw, slot):
     mode = slot["mode"]
-    spec = draw(MM.small_specs(shapes=("matmul", "chain2", "chain2", "matvec", "elementwise2")))
+    if draw(st.integers(0, 2)) < 2:
+        # one Einsum with many divisors per rank: large pmapping groups, where rounding can drop something
+        spec = draw(MM.small_specs(shapes=("matmul", "matvec"), bound_pool=[4, 6, 8, 12, 12], max_ops=2000, tight=True))
+    else:
+        spec = draw(MM.small_specs(shapes=("chain2", "elementwise2"), tight=True))
     t = slot["t"] if mode in ("objective", "both") else 0
     r = slot["r"] if mode in ("resource", "both") else 0
-    return {"spec": spec, "metrics": draw(st.sampled_from(METRICS)), "objective_tolerance": t, "resource_usage_tolerance": r}
+    return {"spec": spec, "metrics": slot["metrics"], "objective_tolerance": t, "resource_usage_tolerance": r,
+            "prune_threshold": draw(st.sampled_from([1000, 1000, 8, 1]))}
 
 
 def check(desc, col):
@@ -51,8 +59,16 @@ def check(desc, col):
     if r:
         labels.append(f"r:{r}")
     samp = {"shape": spec["shape"], "bounds": spec["bounds"], "metrics": metrics, **knobs}
+    thr = desc.get("prune_threshold", 1000)
+    labels.append(f"prune_threshold:{thr}")
     try:
-        b = MM.run(spec, metrics=metrics, mapper=knobs, what=f"tolerance run {knobs}")
+        # DESIGN 4.6: tile-shape exploration only prunes (and only then applies the tolerances) once a partial
+        # enumeration holds >= 1000 choices; lowering that literal exercises the path on small specs.  The exact
+        # run keeps the shipped value.
+        with I.prune_threshold(thr) as active:
+            if not active:
+                labels.append("prune_threshold:inactive")
+            b = MM.run(spec, metrics=metrics, mapper=knobs, what=f"tolerance run {knobs}")
     except Violation as v:
         col.case([spec, metrics, t, r], a.feasible, labels + ["tolerance-run-crashed"], sample=samp)
         if "InvalidMappingError" in v.key:
@@ -104,7 +120,8 @@ MODES = ["objective", "resource", "both"]
 
 
 def shards(tier, seed):
-    slots = [{"mode": MODES[i % 3], "t": TOLS[(i // 3 + seed) % 3], "r": TOLS[(i // 9 + seed) % 3]} for i in range(N[tier])]
+    slots = [{"mode": MODES[i % 3], "t": TOLS[(i // 3 + seed) % 3], "r": TOLS[(i // 9 + seed) % 3],
+              "metrics": METRICS[(i // 3 + i // 9) % 3]} for i in range(N[tier])]
     return MM.deal(slots, tier, seed)
 
 
@@ -122,6 +139,6 @@ THOROUGH_BUDGET_S = 3000
 MUTANTS = []
 MANIFEST = {
     "level_text": "Metamorphic testing of map_workload_to_arch: each generated small spec is mapped exactly and with objective_tolerance and/or resource_usage_tolerance in {0.01, 0.1, 0.5}; with objective_tolerance alone the best returned objective must lie in [opt, (1+t) opt]; with resource_usage_tolerance every returned mapping must pass the detailed model's capacity check and none may beat the exact optimum. No counterexample in N pairs; not a proof.",
-    "level_note": "1-2 Einsums, 2-3 memory levels, rank bounds <= 6; metrics ENERGY, LATENCY, EDP; validity via accelforge's detailed model (reported usage <= 1, no InvalidMappingError).",
+    "level_note": "1-2 Einsums, 2-3 memory levels, rank bounds <= 12 (one Einsum) / 6 (two); metrics ENERGY, LATENCY, EDP; validity via accelforge's detailed model (reported usage <= 1, no InvalidMappingError).",
     "technique": "property-based metamorphic testing of the mapper (Hypothesis)",
 }
